@@ -61,7 +61,12 @@ def ev (op : Op) (a b : Float32) : Float32 :=
   | .div => a / b
   | .atan2 => Float32.atan2 a b
   | .pow => Float32.pow a b
-  | .nthRoot => Float32.pow a (1 / b)   -- negative bases are routed through the interval code in C++
+  -- negative bases are routed through Boost's interval nth_root in the C++ (odd roots of
+  -- negative numbers are defined; the lower bound of the outward-rounded result is returned)
+  | .nthRoot =>
+    if a < 0 then
+      if b.toUInt32 % 2 == 1 then 0 - Float32.pow (0 - a) (1 / b) else Float32.ofBits 0x7fc00000
+    else Float32.pow a (1 / b)
   | .mod => fmod a b
   | .nanfill => if a.isNaN then b else a
   | .compare => if a < b then -1 else if a > b then 1 else 0
